@@ -13,11 +13,14 @@ def const_eval(e):
         return None
     if e[0] == "c" and isinstance(e[1], int):
         return e[1]
-    if e[0] in ("Add", "Sub", "Mul", "Shl", "Shr", "BitAnd", "BitOr") and len(e) == 3:
+    if e[0] in ("Add", "Sub", "Mul", "Shl", "Shr", "BitAnd", "BitOr", "Div", "Rem") and len(e) == 3:
         a, b = const_eval(e[1]), const_eval(e[2])
         if a is None or b is None:
             return None
-        return {"Add": a + b, "Sub": a - b, "Mul": a * b, "Shl": a << b, "Shr": a >> b, "BitAnd": a & b, "BitOr": a | b}[e[0]]
+        if e[0] in ("Div", "Rem") and b == 0:
+            return None
+        return {"Add": a + b, "Sub": a - b, "Mul": a * b, "Shl": a << b, "Shr": a >> b, "BitAnd": a & b, "BitOr": a | b,
+                "Div": a // b if b else None, "Rem": a % b if b else None}[e[0]]
     return None
 
 
